@@ -120,12 +120,23 @@ def _(value: Flag):
 
 
 @customize_repr
+def _(value: float):
+    if value in (float("inf"), float("-inf")):
+        # repr() gives `inf` and `-inf` which are no python expressions
+        return f'float("{real_repr(value)}")'
+    return real_repr(value)
+
+
+@customize_repr
 def _(value: complex):
     # repr(1+2j) is "(1+2j)", the parentheses are not part of the ast node
     # and would be added again with every update
     result = real_repr(value)
     if result.startswith("(") and result.endswith(")"):
         result = result[1:-1]
+    if "inf" in result or "nan" in result:
+        # `inf+1j` is no python expression
+        return f'complex("{result}")'
     return result
 
 
